@@ -13,6 +13,7 @@ from ..core import call, sm, X, Report, write_evidence, Batch, parse_answer
 PID = "C15"
 
 EXPONENTS = [1, 2, 3, 7, 1.0, 2.0, 5.0, 0, -1, -2, 0.0, -3.0, 0.5, 2.5, -0.5, 1e-9, 2 ** 40, float(2 ** 20),
+             0.1 * 3 * 10, 2.000000001, 1.9999999995, 1000000.0005, 7 - 1e-12, 1.0000000000000002, 0.9999999999999999,
              float("nan"), float("inf"), True]
 FOREIGN = [3, 2.5, "x", None, [1], (1,), {"a": 1}, object(), 0, 1, True, 1j]
 
